@@ -21,7 +21,9 @@ RULE = ("Hypothesis draws files biased to boundary arithmetic (2-6 segments, 1-4
         "Oracle: NumPy indexing on the model array (for cut files: on the eager full read). Non-trivial: the "
         "channel has values in >=2 chunks or segments, so windows fall inside chunks and across boundaries."
         ' Every in-range integer index is followed immediately by windows and slices around the element just read (an '
-        'integer index leaves a cached chunk behind).')
+        'integer index leaves a cached chunk behind).'
+        ' Shortened interleaved middle segments (content = complete rows) and a job on scaled channels (reference: '
+        'full read of a separate fresh file) are included.')
 ASSUMPTIONS = [
     "independent encoder vf/encode.py",
     "negative offset/length are outside the statement (domain offset >= 0)",
